@@ -21,6 +21,12 @@ def run(ctx):
     ctx.rule = ("Snell-exact single-ray immersion paths with 0-2 wall reflections (3-5 interfaces) and contact paths, any L/T mode sequence, random materials, "
                 "incidence up to 85 deg at the first wall (beyond the first critical angle for many), tilted walls; distinct = distinct geometry; non-trivial = complex coefficient somewhere")
     cases = pathterms.gen_paths(rng, 60 * ctx.scale, ns=(3, 4, 5, 3, 4, 5, 4, 5, 2), max_inc=85.0)
+    # every fifth case is redrawn at the scale of a thin film (lengths x 1e-6: legs of some ten nanometres)
+    for k_ in range(4, len(cases), 5):
+        sc_ = pathterms.scaled(cases[k_][0], cases[k_][1], 1e-6)
+        if sc_ is not None:
+            cases[k_] = sc_
+            ctx.count("thin_film_scale")
     lines, meta = [], []
     for path, info in cases:
         rg = ray.RayGeometry.from_path(path)
